@@ -1005,7 +1005,8 @@ class DistNormal(DistContinuous):
             self._have_saved_gaussian = False
             return self._saved_gaussian
         s = 1.0
-        while s >= 1.0:
+        # s == 0.0 (both numbers exactly 0.5) has no logarithm: rejected too
+        while s >= 1.0 or s == 0.0:
             v1 = 2.0 * self._stream.next_float() - 1.0  # between -1 and 1
             v2 = 2.0 * self._stream.next_float() - 1.0  # between -1 and 1
             s = v1 * v1 + v2 * v2
